@@ -357,6 +357,41 @@ def ensemble_case(rng, pid="C01"):
     return out, "%s:%s%s%s" % (kind, nested, ":instance" if instance else "", ":pen" if pen is not None else "")
 
 
+def ensemble_warn_case(rng):
+    """C05 for the ensemble one-liners lattice / buckshot / sparsity (full_output=1): maxiter / maxfun are PER-MEMBER budgets,
+    and the returned iterations, function calls and warnflag describe the best member - the flag must name a condition that
+    is true of those returned numbers"""
+    common.import_mystic()
+    from mystic.solvers import lattice, buckshot, sparsity
+    out = []
+    dim = rng.randint(1, 2)
+    cost_spec = solvergen.gen_cost(rng, dim, allow_vector=False)
+    _ENS_EXPR[0] = cost_spec[1]
+    del _ENS_CALLS[:]
+    which = rng.choice(["lattice", "buckshot", "sparsity"])
+    maxiter = rng.choice([3, 8, 30, 200]); maxfun = rng.choice([20, 60, 150, 400, 10000])
+    lo = [common.dyadic(rng, -4, 0, 2) for _ in range(dim)]; hi = [a + 2.0 + abs(common.dyadic(rng, 0, 3, 2)) for a in lo]
+    _random.seed(rng.randrange(2**31)); np.random.seed(rng.randrange(2**31))
+    kw = {"bounds": list(zip(lo, hi)), "maxiter": maxiter, "maxfun": maxfun, "full_output": 1, "disp": 0, "ftol": rng.choice([1e-4, 1e-8])}
+    try:
+        if which == "lattice":
+            r = lattice(_ens_cost, dim, nbins=[rng.randint(1, 3) for _ in range(dim)], **kw)
+        elif which == "buckshot":
+            r = buckshot(_ens_cost, dim, npts=rng.randint(2, 5), **kw)
+        else:
+            r = sparsity(_ens_cost, dim, npts=rng.randint(2, 4), **kw)
+    except Exception as exc:
+        return [], "ens-warn:%s:raised-%s" % (which, type(exc).__name__)
+    x, f, it, fc, wf = r[:5]
+    it = int(it); fc = int(fc); wf = int(wf)
+    case = {"oneliner": which, "dim": dim, "cost": dsl.expr_sexp(cost_spec[1]), "maxiter": maxiter, "maxfun": maxfun,
+            "returned": [[float(v) for v in np.ravel(x)], float(np.ravel(f)[0]), it, fc, wf], "real_calls_all_members": len(_ENS_CALLS)}
+    ok = (wf == 1 and fc >= maxfun) or (wf == 2 and it >= maxiter and fc < maxfun) or (wf == 0 and fc < maxfun and it < maxiter)
+    if not ok:
+        out.append(("wrapper/%s/warnflag" % which, "%s(maxiter=%d, maxfun=%d) returned warnflag %d with iterations=%d and funcalls=%d of the returned (best) member" % (which, maxiter, maxfun, wf, it, fc), case))
+    return out, "ens-warn:%s:wf%d" % (which, wf)
+
+
 def initial_points_case(rng):
     """C02: initial points requested within given limits are generated within them"""
     common.import_mystic()
@@ -614,6 +649,11 @@ def side_cases(pid, seed, shard, k, hist, findings, wlines):
             findings.append(Finding("monitor", key, what, case))
         if req is not None:
             wlines.append(req)
+    if pid == "C05" and k % 4 == 0:
+        res, tag = ensemble_warn_case(rng)
+        hist[tag] = hist.get(tag, 0) + 1
+        for key, what, case in res:
+            findings.append(Finding("monitor", key, what, case))
     if (pid == "C01" and k % 2 == 0) or (pid in ("C02", "C03") and k % 3 == 0):
         res, tag = ensemble_case(rng, pid)
         hist["ensemble:" + tag] = hist.get("ensemble:" + tag, 0) + 1
